@@ -77,7 +77,7 @@ def exhaustive(maxlen):
     return out
 
 
-def run_cases(res, prep, cases, tag, types, lint=True, spec_oracle=True, workers=None, oracle=None):
+def run_cases(res, prep, cases, tag, types, lint=True, spec_oracle=True, workers=None, oracle=None, post=None):
     """cases: list of (sysd, events, expected|None, why). Returns found flag."""
     found = False
     drv = engine.exe("drv_emu")
@@ -91,7 +91,7 @@ def run_cases(res, prep, cases, tag, types, lint=True, spec_oracle=True, workers
         def one(i):
             sysd, events, exp, why = cases[i]
             td = os.path.join(d, "t%d" % i)
-            r = emu_lib.impl_result(prep.bdir, td, sysd, events, lint)
+            r = emu_lib.impl_result(prep.bdir, td, sysd, events, lint, post=post)
             import shutil
             shutil.rmtree(td, ignore_errors=True)
             return r
@@ -120,6 +120,11 @@ def run_cases(res, prep, cases, tag, types, lint=True, spec_oracle=True, workers
         elif ires[0] not in ("ok", "reject"):
             found = True
             res.violation(f"{tag}:crash", f"ovniemu {ires[0]}", text + "\n# " + ires[3][-800:].replace("\n", "\n# "))
+        elif len(ires) > 4 and ires[4]:
+            found = True
+            res.violation(f"{tag}:files:" + ires[4][0][:50].replace(" ", "_"),
+                          "property violated by ovniemu's output files: " + "; ".join(ires[4][:3]),
+                          text + "\n# " + "\n# ".join(ires[4][:5]))
         elif oracle is not None and ires[0] == "ok" and oracle(sysd, events, ires[2]):
             probs = oracle(sysd, events, ires[2])
             found = True
